@@ -11,6 +11,12 @@ entries in random order, extra parameters (same-named at top level and nested, d
 calls each; the real get_converter / impl_converter / convert / ConversionRetort are run in-process and compared
 with the model driver on: converter produced or ProviderNotFoundError, every call's result (type-exact,
 field-wise) or TypeError.
+Generic classes: `class C(Generic[T0, .., T(n-1)])` (n = 1-3, four model kinds) with fields declared through hints over
+the type variables in ANY order of appearance (`Dict[T1, T0]`, a nested generic model `E[T2, T0]`, `Optional[T1]`,
+`List[T0]`), instantiated with leaves / (sibling) models; the destination declares its own variable order or spells
+the types out. The field types the expected value is computed from come from the harness's own substitution
+(c13_world.subst), the model resolves them itself (AdaptixModel/Conv/Generic.lean, a model of GenericResolver);
+`_generic_order_cases` enumerates every permutation of the variables for n = 2, 3 on every seed.
 A fixed family run on every seed (`_tagged_same_type_cases`) declares a nested model with the same tagged hint
 (Annotated / NotRequired) on both sides, where tags must stay invisible to the linking rules.
 Second suite `link`: the linkings the real ModelCoercerProvider fetches for the top-level model pair (observed by a
@@ -56,7 +62,13 @@ CLAIM = {
         "returns what the cache-free specification returns (history_eq_fresh, history_eq_fresh_after, by the cache "
         "invariant 'every entry is what the owning retort's recipe produces for its key'), hence a converter "
         "requested with a per-call recipe computes convertSpec under that recipe followed by the retort's, whatever "
-        "was requested before (get_converter_after_any_history, convert_after_any_history). The hand-written "
+        "was requested before (get_converter_after_any_history, convert_after_any_history). The field types of a "
+        "parametrized generic model C[a0, ..] are modelled after GenericResolver (parameters of the field hint in "
+        "order of first appearance, actuals collected in that order, positional subscription) and proved to be the "
+        "simultaneous substitution of the i-th argument for the i-th declared variable, whatever order a hint "
+        "mentions the variables in (parametrize_eq_subst, subscript_respects_order_of_appearance, "
+        "generic_fields_by_substitution, declared_variable_gets_its_argument, closed_hint_unchanged; collecting the "
+        "actuals in declaration order instead is refuted by decl_order_collection_differs). The hand-written "
         "model is tied to /repo on every run by the `convert` correspondence over generated model pairs, recipes, "
         "parameters and values and by the `history` correspondence over generated request sequences on one retort, "
         "and the direct oracle re-checks the property on the real library against an "
@@ -66,7 +78,9 @@ CLAIM = {
         "Trusted: Lean 4.33 kernel; axioms audited each run. The theorems are about the Lean model. Which coercer is "
         "chosen for two non-model types is property C14 and enters as the parameter World.asIs; user functions and "
         "constructors are uninterpreted / modelled by Python's call binding; shapes of the five model kinds are "
-        "given to the model by the harness (C17). Recursive models are outside the model (the code does not "
+        "given to the model by the harness (C17), except the types of fields declared through type variables, which "
+        "the model resolves itself; inheritance from generic parents, TypeVarTuple and bare generic classes are not "
+        "modelled (C16). Recursive models are outside the model (the code does not "
         "terminate on them). For an explicit link(src, dst) whose source predicate matches several candidates the "
         "candidate order is the code's (source fields, then parameters right to left); the property statement does "
         "not fix it."
@@ -164,6 +178,39 @@ def note_structure(ctx: Ctx, case):
     for k, v in (case.get("profile") or {}).items():
         if v:
             ctx.dist[f"profile-{k}"] += 1
+    for k in generic_regions(case):
+        ctx.dist[k] += 1
+
+
+def generic_regions(case):
+    """regions of the generic part of the input space a case lies in (evidence keys `generic-*`): a hint is
+    `flipped` when its type variables first appear in an order other than the one `Generic[...]` declares"""
+    from harness.props.c13_world import hint_vars
+    out = set()
+    for c in case["classes"]:
+        if not c.get("tvars"):
+            continue
+        out.add(f"generic-{c['role']}-class-with-{c['tvars']}-type-variables")
+        out.add(f"generic-kind-{c['kind']}")
+        if any(a["t"] == "model" for a in c["targs"]):
+            out.add("generic-argument-is-a-model")
+        if c["role"] == "dst" and any(a == {"t": "leaf", "n": 0} for a in c["targs"]):
+            out.add("generic-destination-argument-is-Any")
+        for f in c["fields"]:
+            h = f.get("hint")
+            if h is None:
+                continue
+            vs = hint_vars(h)
+            if len(vs) >= 2:
+                out.add("generic-hint-with-several-type-variables")
+            if vs != sorted(vs):
+                out.add("generic-hint-flipped-order")
+                out.add(f"generic-hint-flipped-order-{c['role']}")
+                top = h["t"] if h["t"] != "model" else "nested-generic-model"
+                out.add(f"generic-hint-flipped-order:{top}")
+            elif len(vs) < c["tvars"] and vs and vs != list(range(len(vs))):
+                out.add("generic-hint-skips-a-declared-variable")
+    return sorted(out)
 
 
 def _as_is_suffix(rc, case, args, kwargs, real_value):
@@ -262,6 +309,11 @@ def check_case(ctx: Ctx, case, reply, suite="convert", rc=None):
         ctx.dist[k] += v
     if any(k.startswith("val-optional-coerced:falsy") for k in spec.stats):
         ctx.dist["case-falsy-value-through-coercing-optional"] += 1
+    if "generic-hint-flipped-order" in generic_regions(case):
+        # the newly covered region: how many such cases get a converter whose calls are held against the rules
+        ctx.dist[f"generic-hint-flipped-order:converter-{created[0]}"] += 1
+        if created[0] == "ok" and any("value" in r for r in results):
+            ctx.dist["generic-hint-flipped-order:result-compared-with-linking-rules"] += 1
 
     if reply is not None and created[0] != "error":
         compared = 1
@@ -540,6 +592,8 @@ def check_history(ctx: Ctx, case, reply, suite="history", rc=None):
     for k, v in (case.get("profile") or {}).items():
         if v:
             ctx.dist[f"hist-profile-{k}"] += 1
+    for k in generic_regions(case):
+        ctx.dist[f"hist-{k}"] += 1
     ctx.sample({"suite": suite, "mode": h["mode"], "base": h["base"][:3],
                 "steps": [{k: v for k, v in st.items() if k != "calls"} for st in h["steps"]][:4],
                 "real": real_rows[:4]}, every=53)
@@ -640,6 +694,85 @@ def _tagged_same_type_cases():
     return out
 
 
+def _generic_order_cases():
+    """systematic family run on every seed: a generic source class `S(Generic[T0, .., T(n-1)])` (n = 2, 3; the four
+    model kinds that can be generic) with a field whose hint mentions the variables in EVERY order - all n!
+    permutations, the declared order being the control - as `Dict[Ta, Tb]` or as a nested generic model
+    `E[Ta, Tb(, Tc)]`, converted to a destination declaring the same hints (generic as well, or written out with
+    plain types). The actual arguments make the coercers of different variables different, so that mixed-up
+    arguments show in the result: sibling models (same field names, own destination classes), or int arguments whose
+    destination arguments are str (served by a user coercer), int and Any. Expected values come from the harness's own
+    substitution (Universe) and the linking rules (Spec), like for every other case."""
+    import itertools
+    import random
+
+    from harness.props.c13_gen import Gen
+    from harness.props.c13_world import LEAF_ANY, LEAF_INT, LEAF_STR, leaf, model_ty, subst, var
+    I, St, A = leaf(LEAF_INT), leaf(LEAF_STR), leaf(LEAF_ANY)
+    coercer = {"k": "coercer", "src": {"p": "origin", "o": {"o": "leaf", "n": LEAF_INT}},
+               "dst": {"p": "origin", "o": {"o": "leaf", "n": LEAF_STR}}, "f": 1}
+    out = []
+    idx = 0
+    for kind in ("dataclass", "namedtuple", "typeddict", "attrs"):
+        for n in (2, 3):
+            for order in itertools.permutations(range(n)):
+                for shape in ("dict", "nested"):
+                    for style in ("models", "leaves"):
+                        idx += 1
+                        classes = []
+
+                        def new(role, fields, **extra):
+                            c = {"id": len(classes), "role": role, "kind": kind,
+                                 "name": f"{'S' if role == 'src' else 'D'}{len(classes)}", "fields": fields, **extra}
+                            classes.append(c)
+                            return c
+                        key = order[0] if shape == "dict" else None
+                        sargs, dargs = [], []
+                        for i in range(n):
+                            if style == "models" and i != key:
+                                sargs.append(model_ty(new("src", [{"id": "id", "ty": I}, {"id": "w", "ty": I}])["id"]))
+                                dargs.append(model_ty(new("dst", [{"id": "id", "ty": I}])["id"]))
+                            else:
+                                sargs.append(I)
+                                dargs.append([St, I, A][i] if style == "leaves" else St)
+                        if shape == "dict":
+                            hs = hd = {"t": "dict", "k": var(order[0]), "v": var(order[1])}
+                        else:
+                            ahints = [var(i) for i in order]
+                            efields = [{"id": f"e{i}", "hint": var(i)} for i in range(n)]
+                            es = new("src", copy.deepcopy(efields), tvars=n, targs=[subst(h, sargs) for h in ahints])
+                            ed = new("dst", copy.deepcopy(efields), tvars=n, targs=[subst(h, dargs) for h in ahints])
+                            hs = {"t": "model", "cls": es["id"], "inst": 0, "args": ahints}
+                            hd = {"t": "model", "cls": ed["id"], "inst": 0, "args": ahints}
+                        control = {"t": "iter", "o": "list", "a": var(n - 1)}
+                        top_s = new("src", [{"id": "f", "hint": hs}, {"id": "g", "hint": control}, {"id": "extra", "ty": I}],
+                                    tvars=n, targs=sargs)
+                        if idx % 2:
+                            top_d = new("dst", [{"id": "f", "hint": hd}, {"id": "g", "hint": control}], tvars=n, targs=dargs)
+                        else:       # the destination spells the types out
+                            top_d = new("dst", [{"id": "f", "ty": subst(hd, dargs)}, {"id": "g", "ty": subst(control, dargs)}])
+                        case = {"classes": classes, "api": "get_converter", "fname": None, "recipe": [coercer], "split": 0,
+                                "sig": {"params": [{"name": "src", "kind": "pos_only", "ty": model_ty(top_s["id"])}],
+                                        "ret": model_ty(top_d["id"])}}
+                        for c in classes:           # every field carries its type, computed by the harness
+                            for f in c["fields"]:
+                                if "ty" not in f:
+                                    f["ty"] = subst(f["hint"], c["targs"])
+                        from harness.props.c13_world import Universe
+                        u = Universe(classes)
+                        g = Gen(random.Random(idx))
+                        g.falsy = False
+                        vals = []
+                        while len(vals) < 2:
+                            v = g.value(model_ty(top_s["id"]), u.logical)
+                            fv = dict(v["fields"])["f"]
+                            if fv["v"] != "dict" or fv["kvs"]:      # an empty dict shows nothing
+                                vals.append(v)
+                        case["calls"] = [{"args": [v], "kwargs": []} for v in vals]
+                        out.append(case)
+    return out
+
+
 def run(ctx: Ctx):
     drv = None
     if ctx.driver_ok:
@@ -648,6 +781,9 @@ def run(ctx: Ctx):
         except InfraError:
             drv = None
     run_cases(ctx, _fixed_cases() + _tagged_same_type_cases(), drv, "convert")
+    fam = _generic_order_cases()
+    ctx.dist["generic-order-family-cases"] += len(fam)
+    run_cases(ctx, fam, drv, "convert")
     n = ctx.budget(1800, 19000)
     batch = 500
     done = 0
